@@ -1,0 +1,29 @@
+//go:build verif
+
+package device
+
+import (
+	"errors"
+
+	"github.com/hknutzen/Netspoc-Approve/go/pkg/deviceconf"
+	"github.com/hknutzen/Netspoc-Approve/go/pkg/errlog"
+)
+
+// VerifLoadSpoc runs loadSpoc (IPv4 file, IPv6 file, raw file, merged) for the
+// device type named in fname.info and returns the merged configuration.
+// Only used by the verification harness (property C18).
+func VerifLoadSpoc(fname string) (deviceconf.Config, error) {
+	var conf deviceconf.Config
+	var err error
+	rc := errlog.HandleAbort(func() int {
+		errlog.Quiet = true
+		errlog.SetStderrLog("")
+		s := &state{RealDevice: getRealDevice(fname)}
+		conf, err = s.loadSpoc(fname)
+		return 0
+	})
+	if rc != 0 {
+		return nil, errors.New("aborted")
+	}
+	return conf, err
+}
